@@ -363,6 +363,15 @@ def domain_problems(obj):
 
 
 # ------------------------------------------------------------- machine
+class ValidRejected(Exception):
+    """The library refused to construct an object from in-domain values."""
+
+    def __init__(self, cls, detail):
+        super().__init__(detail)
+        self.cls = cls
+        self.detail = detail
+
+
 class Slot:
     def __init__(self, kind, obj, model):
         self.kind = kind        # 'region' | 'list' | 'dict'
@@ -448,7 +457,13 @@ class Machine:
             self.stats['ops'][op['op']] = self.stats['ops'].get(op['op'], 0) + 1
             n0 = len(self.events)
             handler = getattr(self, 'op_' + op['op'])
-            handler(op, rng)
+            try:
+                handler(op, rng)
+            except ValidRejected as exc:
+                self.violation('A3-valid-rejected' if self.mode == 'c17'
+                               else 'V0-valid-construction-raises',
+                               exc.detail, cls=exc.cls)
+                self.ev(outcome='valid-construction-raised', cls=exc.cls)
             if len(self.events) == n0:
                 self.stats['skipped'] += 1
                 self.events.append({'step': i, 'op': op['op'], 'skip': True})
@@ -483,8 +498,13 @@ class Machine:
             if nr:
                 near[f] = True
         import regions
-        obj = getattr(regions, cls)(**params, meta=build({'t': 'meta', 'v': meta}),
-                                    visual=build({'t': 'visual', 'v': visual}))
+        try:
+            obj = getattr(regions, cls)(
+                **params, meta=build({'t': 'meta', 'v': meta}),
+                visual=build({'t': 'visual', 'v': visual}))
+        except Exception as exc:
+            raise ValidRejected(cls, f'{cls}(**menu values {toks}) raised '
+                                f'{type(exc).__name__}: {str(exc)[:120]}')
         m = MRegion(cls, toks, MDict('meta', items_to_model(meta)),
                     MDict('visual', items_to_model(visual)))
         return obj, m
@@ -515,7 +535,13 @@ class Machine:
                 mm = mv = None
         else:
             mm = mv = None
-        obj = getattr(regions, cls)(o1, o2, getattr(operator, opname), **kw)
+        try:
+            obj = getattr(regions, cls)(o1, o2, getattr(operator, opname),
+                                        **kw)
+        except Exception as exc:
+            raise ValidRejected(cls, f'{cls}(valid operands, {sorted(kw)}) '
+                                f'raised {type(exc).__name__}: '
+                                f'{str(exc)[:120]}')
         m = MRegion(cls, None, mm if mm is not None else m1.meta,
                     mv if mv is not None else m1.visual, m1, m2, opname)
         return obj, m
@@ -677,6 +703,9 @@ class Machine:
         touched = set()
         what = None
         target_m, target_o = m, obj
+        if m.compound and internal_alias(obj):
+            m.eq_unknown = True
+            _mark_unknown_up(self.slots, m)
         if m.compound:
             c = rng.weighted([('nested', 4), ('setdict', 2), ('dictedit', 2)])
             if c == 'nested':
@@ -793,6 +822,8 @@ class Machine:
                 f = rng.pick(sorted(kinds))
                 kind = kinds[f]
                 t0 = tm.tok[f]
+                if isinstance(t0, list) and t0[0] == 'derived':
+                    return
                 base_tok = t0[1] if isinstance(t0, list) else t0
                 self.nmut += 1
                 eps = 0.001 * (self.nmut + 1)
@@ -897,7 +928,13 @@ class Machine:
         S = self.slots[a]
         n = len(S.model.items)
         how = rng.pick(['slice', 'slice', 'copy', 'getitem'])
-        if how == 'slice':
+        if how == 'slice' and rng.chance(0.25):
+            k = rng.randint(0, n)
+            sl = slice(k, k)                       # an empty slice
+            obj = S.obj[sl]
+            m = MList([])
+            what = f'[{k}:{k}]'
+        elif how == 'slice':
             lo = rng.randint(-1, n)
             hi = rng.randint(-1, n + 1)
             st = rng.pick([None, None, 1, 2, -1])
@@ -953,7 +990,7 @@ class Machine:
         regs = [i for i, s in enumerate(self.slots) if s.kind == 'region']
         n = len(S.model.items)
         e = rng.weighted([('append', 3), ('extend', 2), ('insert', 2),
-                          ('pop', 2), ('reverse', 2), ('extend_regions', 1)])
+                          ('pop', 2), ('reverse', 2), ('extend_regions', 3)])
         if e in ('append', 'insert', 'extend') and not regs:
             return
         if e == 'pop' and n == 0:
@@ -1058,6 +1095,65 @@ class Machine:
             self.compare_objs(S.obj, T.obj, model_eq(S.model, T.model),
                               f'slot {a} ({S.model.cls}) vs slot {b} '
                               f'({T.model.cls})', S.model.cls)
+
+    VARIANTS = {
+        'RegularPolygonPixelRegion': ('PolygonPixelRegion', 'vertices'),
+        'TextPixelRegion': ('PointPixelRegion', None),
+        'TextSkyRegion': ('PointSkyRegion', None),
+        'EllipsePixelRegion': ('RectanglePixelRegion', None),
+        'RectanglePixelRegion': ('EllipsePixelRegion', None),
+        'EllipseSkyRegion': ('RectangleSkyRegion', None),
+        'RectangleSkyRegion': ('EllipseSkyRegion', None),
+        'EllipseAnnulusPixelRegion': ('RectangleAnnulusPixelRegion', None),
+        'RectangleAnnulusPixelRegion': ('EllipseAnnulusPixelRegion', None),
+        'EllipseAnnulusSkyRegion': ('RectangleAnnulusSkyRegion', None),
+        'RectangleAnnulusSkyRegion': ('EllipseAnnulusSkyRegion', None),
+    }
+
+    def op_classvariant(self, op, rng):
+        """A region of ANOTHER class (base class, or sibling class) holding
+        exactly the same parameter values, meta and visual: equality must
+        fail because the class differs."""
+        a = self.pick(op['s'], lambda s: s.kind == 'region'
+                      and s.model.cls in self.VARIANTS)
+        if a is None:
+            return
+        import regions
+        S = self.slots[a]
+        other, special = self.VARIANTS[S.model.cls]
+        Other = getattr(regions, other)
+        names = list(Other._params)
+        try:
+            kw = {n: copy.deepcopy(getattr(S.obj, n)) for n in names}
+            obj = Other(**kw, meta=copy.deepcopy(S.obj.meta),
+                        visual=copy.deepcopy(S.obj.visual))
+        except Exception as exc:
+            raise ValidRejected(other, f'{other} from the values of a '
+                                f'{S.model.cls} raised {exc!r}')
+        m = mcopy(S.model)
+        m.cls = other
+        # a field the source class does not have (polygon vertices of a
+        # regular polygon) is a function of ALL the source's tokens
+        src_key = repr(sorted((k, _ntok(v)) for k, v in S.model.tok.items()))
+        m.tok = {n: (S.model.tok[n] if n in S.model.tok
+                     else ['derived', src_key]) for n in names}
+        if any(isinstance(t, list) and t[0] == 'derived'
+               for t in m.tok.values()):
+            # the vertices of a regular polygon are whatever it computed at
+            # construction; the model does not predict equality of such
+            # polygons with anything but their source (checked below)
+            m.eq_unknown = True
+        i = self.add_slot('region', obj, m)
+        self.ev(slot=i, src=a, cls=other, of=S.model.cls)
+        self.state('classvariant', S.model.cls, other)
+        self.compare_objs(S.obj, obj, False,
+                          f'slot {a} ({S.model.cls}) vs the {other} with the '
+                          f'same parameter values (slot {i})', S.model.cls)
+        self.compare_objs(obj, S.obj, False,
+                          f'{other} (slot {i}) vs the {S.model.cls} it was '
+                          f'built from (slot {a})', other)
+        self.check_unchanged({id(m)}, 'V1-independence',
+                             f'classvariant({a})')
 
     def op_compare(self, op, rng):
         a = self.pick(op['s'], lambda s: s.kind == 'region')
@@ -1207,7 +1303,7 @@ class Machine:
                 self.violation('A3-readback', f'{cls}.{f} cannot be read '
                                f'back: {exc!r}', cls=cls, field=f)
                 continue
-            if got is not v and canon(got) != canon(v):
+            if not same_value(got, v):
                 self.violation('A3-readback', f'{cls}.{f} reads back '
                                f'{got!r}, stored {v!r}', cls=cls, field=f)
 
@@ -1303,9 +1399,9 @@ class Machine:
                                    f'{got!r}, stored {v!r}', cls=cls, field=f)
             else:
                 got = getattr(obj, f)
-                if got is not v:
+                if not same_value(got, v):
                     self.violation('A3-readback', f'{cls}.{f} reads back '
-                                   f'{got!r} (not the object stored: {v!r})',
+                                   f'{got!r} (stored: {v!r})',
                                    cls=cls, field=f)
         elif out == 'wrongly-accepted':
             m.tainted.add(f)
@@ -1454,7 +1550,7 @@ class Machine:
                 if out == 'ok' and entry != 'fromkeys':
                     for k, v in items:
                         kk = VISUAL_KEYMAP.get(k, k) if which == 'visual' else k
-                        if kk not in res or res[k] is not v:
+                        if kk not in res or not same_value(res[k], v):
                             self.violation('A3-readback', f'{what}: key '
                                            f'{k!r} does not read back',
                                            cls=cls)
@@ -1468,7 +1564,7 @@ class Machine:
                     self.violation('A3-readback', f'{what}: key {k!r} cannot '
                                    f'be read back: {exc!r}', cls=cls)
                     continue
-                if got is not v:
+                if not same_value(got, v):
                     self.violation('A3-readback', f'{what}: key {k!r} reads '
                                    f'back {got!r}, stored {v!r}', cls=cls)
         if out == 'wrongly-accepted' and tgt is not None:
@@ -1614,7 +1710,8 @@ class Machine:
                               'visual'])
         i = self.add_slot('region', res, m)
         if out == 'ok':
-            if res.region1 is not r1 or res.region2 is not r2 or \
+            if not same_value(res.region1, r1) or \
+                    not same_value(res.region2, r2) or \
                     res.operator is not opr:
                 self.violation('A3-readback', f'{cls} operands/operator do '
                                'not read back', cls=cls)
@@ -1666,7 +1763,7 @@ class Machine:
         elif out == 'ok':
             got = getattr(obj, f)
             if (f in ('meta', 'visual') and dict(got) != v) or \
-                    (f not in ('meta', 'visual') and got is not v):
+                    (f not in ('meta', 'visual') and not same_value(got, v)):
                 self.violation('A3-readback', f'{cls}.{f} does not read '
                                'back', cls=cls, field=f)
 
@@ -1781,6 +1878,42 @@ class Machine:
         return False
 
 
+def _mutable_ids(o, acc, depth=0):
+    """ids of the mutable objects reachable from a region (value graph)."""
+    from regions import Region
+    if depth > 8 or id(o) in acc:
+        return acc
+    if isinstance(o, Region):
+        acc.add(id(o))
+        for v in o.__dict__.values():
+            _mutable_ids(v, acc, depth + 1)
+    elif isinstance(o, (dict, list)):
+        acc.add(id(o))
+        for v in (o.values() if isinstance(o, dict) else o):
+            _mutable_ids(v, acc, depth + 1)
+    elif isinstance(o, (str, bytes, int, float, bool, type(None), tuple)):
+        pass
+    else:
+        acc.add(id(o))          # PixCoord, arrays, Quantity, SkyCoord, ...
+        for v in getattr(o, '__dict__', {}).values():
+            if isinstance(v, (np.ndarray,)):
+                acc.add(id(v))
+    return acc
+
+
+def internal_alias(obj):
+    """True if the two operands of a compound share mutable state (e.g.
+    ``a | a``, or a deepcopy of it, which preserves the sharing while
+    ``copy()`` does not): the effect of editing one operand on the other is
+    then not something the properties specify."""
+    try:
+        a = _mutable_ids(obj.region1, set())
+        b = _mutable_ids(obj.region2, set())
+    except Exception:
+        return True
+    return bool(a & b)
+
+
 def _mark_unknown_up(slots, m):
     """A compound whose shared meta was edited in place has an ambiguous
     internal alias structure: exclude it (and compounds built on it) from
@@ -1795,10 +1928,25 @@ def _cname(o):
     return type(o).__name__
 
 
+def same_value(got, v):
+    """"Readable back unchanged": the same object, or an equal value."""
+    if got is v:
+        return True
+    try:
+        if canon(got) == canon(v):
+            return True
+    except Exception:
+        pass
+    try:
+        return bool(np.all(got == v))
+    except Exception:
+        return False
+
+
 # ------------------------------------------------------ plan generation
 C16_OPS = [('new', 5), ('copy', 5), ('copy_changes', 4), ('mutate', 9),
            ('combine', 1.5), ('newlist', 1.5), ('listderive', 2.5),
-           ('listedit', 3), ('compare', 2)]
+           ('listedit', 3), ('compare', 2), ('classvariant', 1.5)]
 C17_OPS = [('construct', 6), ('setattr', 8), ('delattr', 1.5),
            ('dictop', 6), ('listop', 3), ('compound', 2),
            ('compound_set', 1.5), ('boxmask', 1.5), ('readback', 0.5)]
